@@ -110,6 +110,9 @@ func HarnessC15LiteralTyped() {
 	}
 	s := pre + hole + "\"^^type:" + t
 	b := literal.DefaultBuilder()
+	if verif.Choice("builder", 2) == 1 {
+		b = literal.NewBoundedBuilder(1) // text and blob values longer than one byte are rejected with an error
+	}
 	var l *literal.Literal
 	var err error
 	if !noPanic("C15/literal/no-panic", func() { l, err = b.Parse(s) }) {
